@@ -33,6 +33,7 @@ type c10Desc struct {
 	Blocked string `json:"blocked_call,omitempty"` // read | reader-read | write | writer-write | writer-close | ping
 	Pre     string `json:"before,omitempty"`       // none | ping-interleaved | concurrent-write-completed | concurrent-read-completed | earlier-op-cancelled
 	How     string `json:"how,omitempty"`          // cancel | deadline
+	Size    int    `json:"size,omitempty"`         // writer-first-write-fills-buffer: bytes of the first Write
 	Seed    uint64 `json:"seed"`
 }
 
@@ -101,6 +102,17 @@ func c10Gen(tier string, seed int64) []fw.Case {
 						}
 					}
 				}
+			}
+		}
+	}
+	// the first Write of a streamed message fills the 4096 byte write buffer to within a few bytes (every
+	// size around it): with its header the frame may or may not fit, and when it does not the flush blocks
+	for _, role := range bothRoles {
+		for size := 4078; size <= 4100; size++ {
+			for _, how := range []string{"cancel", "deadline"} {
+				d := c10Desc{Kind: "blocked", Role: role, Blocked: "writer-first-write-fills-buffer", Pre: "none", How: how, Size: size, Seed: rng.U64()}
+				dd := d
+				cases = append(cases, fw.Case{Name: fmt.Sprintf("blocked/%s/first-write-%d/%s", role, size, how), Desc: dd, Run: func(r *fw.R) { c10Blocked(r, dd) }})
 			}
 		}
 	}
@@ -322,9 +334,12 @@ func c10Blocked(r *fw.R, d c10Desc) {
 	r.SetSample(d)
 	canaryMax.Store(0)
 	lib2peer := xport.Plan{}
-	blocksOnWrite := d.Blocked == "write" || d.Blocked == "writer-write" || d.Blocked == "writer-close"
+	blocksOnWrite := d.Blocked == "write" || d.Blocked == "writer-write" || d.Blocked == "writer-close" || d.Blocked == "writer-first-write-fills-buffer"
 	if blocksOnWrite {
 		lib2peer.Capacity = 3000
+	}
+	if d.Blocked == "writer-first-write-fills-buffer" {
+		lib2peer.Capacity = 16
 	}
 	if d.Blocked == "read-pong-blocked" {
 		lib2peer.Capacity = 40 // a Pong with a 100 byte payload does not fit: the reply blocks in the transport
@@ -366,6 +381,10 @@ func c10Blocked(r *fw.R, d c10Desc) {
 	rng := fw.NewRand(d.Seed)
 	what := fmt.Sprintf("%s %s blocked=%s before=%s how=%s", d.Role, paramsKey(d.Params), d.Blocked, d.Pre, d.How)
 	r.Key("blocked/%s/%s/%s/%s/%s", d.Role, paramsKey(d.Params), d.Blocked, d.Pre, d.How)
+	if d.Size > 0 {
+		what += fmt.Sprintf(" size=%d", d.Size)
+		r.Key("blocked/%s/first-write/size=%d", d.Role, d.Size)
+	}
 
 	// a reader is needed for pings and for the concurrent-read variant
 	readerCtx, readerCancel := context.WithCancel(base)
@@ -520,6 +539,16 @@ func c10Blocked(r *fw.R, d c10Desc) {
 				res <- err
 			}
 		}()
+	case "writer-first-write-fills-buffer":
+		var err error
+		w, err = c.Writer(ctx, websocket.MessageBinary)
+		if err != nil {
+			r.Violate("C10/setup-failed", what+": "+err.Error(), "")
+			return
+		}
+		close(stopReading)
+		<-peerReads
+		go func() { _, err := w.Write(big[:d.Size]); res <- err }()
 	case "ping":
 		go func() { res <- c.Ping(ctx) }()
 	}
@@ -528,6 +557,12 @@ func c10Blocked(r *fw.R, d c10Desc) {
 	case err := <-res:
 		if d.How == "deadline" && err != nil {
 			break
+		}
+		if d.Blocked == "writer-first-write-fills-buffer" && err == nil {
+			// frame and header fitted into the write buffer: nothing blocked, nothing to judge
+			r.Count("first_writes_that_fitted_the_buffer", 1)
+			r.Key("blocked/%s/first-write/fitted", d.Role)
+			return
 		}
 		r.Violate("C10/call-did-not-block", fmt.Sprintf("%s: the call returned %v before its context ended although the peer withholds what it waits for", what, err), "")
 		return
